@@ -15,11 +15,64 @@ import (
 func (c *Ctx) rulesR6delpos() {
 	c.rule("C07.delpos", "when a negotiation emitter drops a vetoed Auto state from the transition's target (slices.Delete on the target states / TargetIndexes), the position it deletes at is the result of an index search in the target list, never a loop counter: the emitters walk a snapshot of the target (or of the states before/after) while the target shrinks, so the counter is off by one as soon as one state has been dropped and the next veto removes the wrong state")
 	n := 0
+	// the emitters and the private pkg/machine functions they call (a shared
+	// drop helper); each function is examined once, the floor counts the
+	// deletions every emitter can reach
+	var scan []*ssa.Function
+	seenF := map[*ssa.Function]bool{}
+	reachDel := 0
+	var dels func(f *ssa.Function) int
+	dels = func(f *ssa.Function) int {
+		k := 0
+		for _, b := range f.Blocks {
+			for _, ins := range b.Instrs {
+				if call, ok := ins.(*ssa.Call); ok && calleeName(&call.Call) == "Delete" && len(call.Call.Args) == 3 {
+					if fo := calleeObj(&call.Call); fo != nil && fo.Pkg() != nil && fo.Pkg().Path() == "slices" {
+						k++
+					}
+				}
+			}
+		}
+		return k
+	}
 	for _, name := range []string{"emitSelfEvents", "emitEnterEvents", "emitStateStateEvents", "emitExitEvents"} {
 		f := c.fnOpt(pm + ":Transition." + name)
 		if f == nil {
 			continue
 		}
+		fs := []*ssa.Function{f}
+		for d, lvl := 0, []*ssa.Function{f}; d < 2; d++ {
+			var next []*ssa.Function
+			for _, g := range lvl {
+				for _, b := range g.Blocks {
+					for _, ins := range b.Instrs {
+						ci, ok := ins.(ssa.CallInstruction)
+						if !ok {
+							continue
+						}
+						callee := ci.Common().StaticCallee()
+						if callee == nil || callee.Parent() != nil || callee.Pkg != f.Pkg || callee.Object() == nil || callee.Object().Exported() || len(callee.Blocks) == 0 {
+							continue
+						}
+						if strings.HasPrefix(callee.Name(), "emit") {
+							continue // another emitter / emitHandler
+						}
+						next = append(next, callee)
+					}
+				}
+			}
+			fs = append(fs, next...)
+			lvl = next
+		}
+		for _, g := range fs {
+			reachDel += dels(g)
+			if !seenF[g] {
+				seenF[g] = true
+				scan = append(scan, g)
+			}
+		}
+	}
+	for _, f := range scan {
 		for _, b := range f.Blocks {
 			for _, ins := range b.Instrs {
 				call, ok := ins.(*ssa.Call)
@@ -59,8 +112,8 @@ func (c *Ctx) rulesR6delpos() {
 			}
 		}
 	}
-	if n < 4 {
-		c.undecided(fmt.Sprintf("C07.delpos: only %d slices.Delete calls found in the negotiation emitters (expected >= 4)", n))
+	if reachDel < 4 {
+		c.undecided(fmt.Sprintf("C07.delpos: only %d slices.Delete calls found in the negotiation emitters (expected >= 4)", reachDel))
 	}
 }
 
